@@ -22,6 +22,7 @@ mod wf;
 mod c17x;
 mod props;
 mod c16;
+mod c16dir;
 mod c12;
 mod c15;
 mod c14;
@@ -92,7 +93,14 @@ fn dispatch(args: &Args) -> Report {
     "C16" => {
       let child = match (args.get_u64("child_from"), args.get_u64("child_to")) { (Some(a), Some(b)) => Some((a, b)), _ => None };
       let rp = if args.get("sub") == Some("determinism") { args.get_u64("case") } else { None };
-      c16::run(&args.tier, args.seed, rp, child)
+      if args.get("sub") == Some("dirs") { return c16dir::run(&args.tier, args.seed, args.get_u64("case")); }
+      let mut r = c16::run(&args.tier, args.seed, rp, child);
+      if child.is_none() && rp.is_none() && args.tier != "miri" {
+        r.merge(c16dir::run(&args.tier, args.seed, None));
+        r.rule.push_str(" File-backed part: histories over pie's real PathBuf resource in which tasks list two directories (dependency on the listing through HashChecker) and read up to 6 files, with files created, rewritten and deleted between top-down and bottom-up builds; each history is replayed twice on fresh Pie instances over a re-created directory at the same path, and the logs of executions and outputs must be identical.");
+        r.floor("directory histories replayed", r.get("directory_history_replays") >= 1000);
+      }
+      r
     }
     _ => props::run(args),
   }
